@@ -220,7 +220,7 @@ pub fn property() -> Property {
         gen,
         check,
         finalize: no_finalize,
-        rule: "three in four evaluations: one simulated execution of 1-4 real Server workers at a seeded log level (Off..Trace), fault_percentage and batch_size, fed a storm of 30-330 datagrams (as C07) with, in the fault profile, send_to/recv_from errors, receive-queue overflow, spurious poll returns, phantom datagrams, postponed tasks; then 8 valid sentinels after faults stop; one in four: the real main() (workers, reporter thread, health listener) under the same storms plus accept / TCP write / statistics-file create and write errors, disk stalls, wall-clock steps and health probes; non-trivial = workers received datagrams; distinct = distinct schedule fingerprints",
+        rule: "three in four evaluations: one simulated execution of 1-4 real Server workers at a seeded log level (Off..Trace), fault_percentage and batch_size, fed a storm of 30-330 datagrams (as C07) with, in the fault profile, send_to/recv_from errors, receive-queue overflow, spurious poll returns, phantom datagrams, postponed tasks; then 8 valid sentinels after faults stop and a final burst (1-6 awkward datagrams incl. empty / 1-byte / oversized, one valid request behind them in the same instant, nothing afterwards); every sentinel that reached a worker's socket must be answered; one in four: the real main() (workers, reporter thread, health listener) under the same storms plus accept / TCP write / statistics-file create and write errors, disk stalls, wall-clock steps and health probes; non-trivial = workers received datagrams; distinct = distinct schedule fingerprints",
         assumptions: &["log verbosity is selected through log::set_max_level as an embedding program would", "bounded liveness: a sentinel is answered within 1 simulated second once faults stop"],
         real: REAL_F,
         stub: STUB,
